@@ -3,6 +3,7 @@ CONSTANTS
   Sessions = {"L1", "M1"}
   Legacy = {"L1"}
   InitOn = {"L1"}
+  InitSub = {}
   Kinds = {"tools"}
   NotifOf <- NotifStd
   Uris = {}
